@@ -486,7 +486,7 @@ def check_C17(tier, seed, t0):
 
 def check_C20(tier, seed, t0):
     descs = ["mode=mt;rounds=%d;seed=%d" % (n_of(tier, 12, 24), seed * 10 + i) for i in range(n_of(tier, 2, 8))]
-    own = ["ConcurrentTraceIdentical", "ConcurrentResultsIdentical", "Abort", "UnknownRow"]
+    own = ["ConcurrentTraceIdentical", "ConcurrentResultsIdentical", "FreshProcessIdentical", "IsolatedRunCompleted", "Abort", "UnknownRow"]
     models = [("Threads.tla", "Threads_own.cfg", 2), ("Threads.tla", "Threads_sharedprod.cfg", 2)]
     neg = [("Threads.tla", "Threads_sharedsolve.cfg", 2)]
     extra = []
